@@ -923,7 +923,8 @@ def check_sigma(c, case):
     if bad:
       ok = False
       inf_below = any(x.kind in ('hashinf', 'regioninf') for x in n.walk())
-      c.prop_fail(KEY_NORM_NAN if inf_below else 'normalizer-sigma-not-positive',
+      is_nan = any(math.isnan(sig[k]) or math.isnan(mus[k]) for k in bad)
+      c.prop_fail(KEY_NORM_NAN if (inf_below and is_nan) else 'normalizer-sigma-not-positive',
                   'NormalizingExperimenter fixed mean=%s std=%s at construction for metrics %s: normalised values are NaN / order is not preserved (%s)' % (
                       {k: mus[k] for k in bad}, {k: sig[k] for k in bad}, bad, case.desc),
                   {'stack': case.desc, 'spec': case.spec, 'mu': mus, 'sigma': sig})
@@ -997,7 +998,8 @@ def identify_variants(c):
   flags['normSkipsInfeasible'] = all(math.isfinite(v) and v > 0 for v in sig.values()) and bool(sig)
   c.count(1, ('witness', 'normNan'), kind='witness')
   if not flags['normSkipsInfeasible']:
-    c.prop_fail(KEY_NORM_NAN, 'NormalizingExperimenter over an experimenter with infeasible points fixes mean/std = NaN at construction, every normalised objective is NaN: std=%s' % sig,
+    c.prop_fail(KEY_NORM_NAN if any(math.isnan(v) for v in sig.values()) else 'normalizer-sigma-not-positive',
+                'NormalizingExperimenter over an experimenter with infeasible points fixes mean/std = NaN (or std <= 0) at construction, normalised objectives are NaN / unordered: std=%s' % sig,
                 {'stack': describe(spec), 'spec': spec, 'sigma': {k: repr(v) for k, v in sig.items()}})
   return flags
 
@@ -1068,12 +1070,12 @@ def perm_int_nodes(node):
   return [n for n in node.walk() if n.kind == 'permute' and n.extra.get('int_valued')]
 
 
-def run_cases(c, specs, flags, n_batches, max_batch, tag):
+def run_cases(c, specs, flags, n_batches, max_batch, tag, points=None):
   """real runs -> model queries -> real bases -> model evaluation -> comparisons"""
   cases = []
   for spec in specs:
     try:
-      case = run_real(c, spec, flags, c.rng, n_batches, max_batch)
+      case = run_real(c, spec, flags, c.rng, n_batches, max_batch, points=points)
     except Invalid:
       continue
     if case.error is not None:
@@ -1407,8 +1409,25 @@ def run(c):
                   'multiKeepsInfeasible': flags['multi'], 'permuteIntegerValued': flags['permuteInt'],
                   'infeasibleProblemByValue': flags['byValue'], 'normaliserSkipsInfeasible': flags['normSkipsInfeasible']})
   quick = c.tier == 'quick'
+  if getattr(c, 'replay_path', None):
+    # the witnesses of the known defect classes were replayed by identify_variants above; a
+    # replay file of a generated stacking is evaluated again at its point and on fresh batches
+    obj = getattr(c, 'replay_obj', None) or {}
+    case = obj.get('case', {})
+    c.notes.append('replay of %s' % c.replay_path)
+    if isinstance(case, dict) and case.get('spec'):
+      pts = None
+      pt = case.get('point')
+      if isinstance(pt, dict):
+        pts = [[pt]]
+      elif isinstance(pt, list) and pt:
+        pts = [[{n: un_json(v) for n, v in pt}]]
+      run_cases(c, [case['spec']], flags, 1 if pts else 4, 4, 'replay', points=pts)
+      if pts:
+        run_cases(c, [case['spec']], flags, 4, 4, 'replay')
+    return c.finish(level='proof', rule='replay of ' + c.replay_path)
   run_cases(c, corpus_specs(), flags, 3, 4, 'corpus')
-  n = 110 if quick else 1400
+  n = 180 if quick else 3000
   chunk = 60 if quick else 200
   done = 0
   while done < n:
